@@ -7,6 +7,7 @@ must have been called exactly once if a resolved component changed, not at all i
 from hypothesis import strategies as st
 
 import param
+from param.parameterized import batch_call_watchers
 from vlib.core import Result
 
 ID = "C07"
@@ -15,7 +16,7 @@ RULE = ("Hypothesis-generated histories (<=12 ops) over Top.a -> Mid.b -> Leaf(x
         "one or two depends(watch=True) methods whose dependency sets are drawn from {a.z, a.b.x, a.b.y, a.param, a.b.param, c.x, "
         "c.y, c.param} (several leaves under the same sub-object, different depths, different roots); pool of 3 Mid and 4 Leaf "
         "objects with values in {0,1,2} so equal-valued replacements are common; ops: attach/replace/detach a Mid, a Leaf under "
-        "any Mid (attached or not), the c leaf; leaf / mid assignments on attached and detached objects; construction with or "
+        "any Mid (attached or not), the c leaf; leaf / mid assignments (by attribute, param.update or inside a batch on the sub-object) on attached and detached objects; one parent, two parents sharing the pool of sub-objects, or a parent and an instance of a subclass with one more dependent method; construction with or "
         "without initial sub-objects; oracle = vector model (exactly once / never), assignments on detached objects call nothing, "
         "and detached objects keep no watcher. Non-trivial = a sub-object is replaced and both the old and the new object are "
         "assigned afterwards, or a method has >=2 dependencies through the same sub-object; distinct = case hash.")
@@ -29,15 +30,17 @@ DEPS = ["a.z", "a.b.x", "a.b.y", "a.param", "a.b.param", "c.x", "c.y", "c.param"
 UNRES = "<unresolved>"
 
 _v = st.integers(0, 2)
+_pi = st.integers(0, 1)          # which parent (taken modulo the number of parents)
+_route = st.sampled_from(["attr", "attr", "update", "batch"])
 _ops = st.one_of(
-    st.tuples(st.just("attach_mid"), st.sampled_from([-1, 0, 1, 2, 0, 1, 2])),
-    st.tuples(st.just("attach_mid"), st.integers(0, 2)),
+    st.tuples(st.just("attach_mid"), st.sampled_from([-1, 0, 1, 2, 0, 1, 2]), _pi),
+    st.tuples(st.just("attach_mid"), st.integers(0, 2), _pi),
     st.tuples(st.just("attach_leaf"), st.integers(0, 2), st.sampled_from([-1, 0, 1, 2, 3, 0, 1, 2, 3])),
     st.tuples(st.just("attach_leaf"), st.integers(0, 2), st.integers(0, 3)),
-    st.tuples(st.just("attach_c"), st.integers(-1, 3)),
-    st.tuples(st.just("set_leaf"), st.integers(0, 3), st.sampled_from(["x", "y"]), _v),
-    st.tuples(st.just("set_leaf"), st.integers(0, 3), st.sampled_from(["x", "y"]), _v),
-    st.tuples(st.just("set_mid"), st.integers(0, 2), _v),
+    st.tuples(st.just("attach_c"), st.integers(-1, 3), _pi),
+    st.tuples(st.just("set_leaf"), st.integers(0, 3), st.sampled_from(["x", "y"]), _v, _route),
+    st.tuples(st.just("set_leaf"), st.integers(0, 3), st.sampled_from(["x", "y"]), _v, _route),
+    st.tuples(st.just("set_mid"), st.integers(0, 2), _v, _route),
 ).map(list)
 
 
@@ -45,6 +48,16 @@ _ops = st.one_of(
 def _case(draw):
     nm = draw(st.integers(1, 2))
     methods = [sorted(draw(st.sets(st.sampled_from(DEPS), min_size=1, max_size=3))) for _ in range(nm)]
+    parents = draw(st.sampled_from([["Top"], ["Top"], ["Top", "Top"], ["Top", "Sub"], ["Sub", "Top"]]))
+    sub_method = sorted(draw(st.sets(st.sampled_from(DEPS), min_size=1, max_size=2)))
+    prefix = []
+    if "Sub" in parents and draw(st.booleans()):
+        # the subclass reaches through a root none of the inherited methods uses, and the plain parent is used first
+        methods = [sorted(draw(st.sets(st.sampled_from(DEPS[:5]), min_size=1, max_size=3))) for _ in range(nm)]
+        sub_method = sorted(draw(st.sets(st.sampled_from(DEPS[5:]), min_size=1, max_size=2)))
+        prefix = [["attach_mid", draw(st.integers(0, 2)), parents.index("Top")],
+                  ["attach_c", draw(st.integers(0, 3)), parents.index("Sub")],
+                  ["set_leaf", draw(st.integers(0, 3)), draw(st.sampled_from(["x", "y"])), draw(_v), "attr"]]
     return {
         "methods": methods,
         "leaf_vals": draw(st.lists(st.tuples(_v, _v), min_size=4, max_size=4)),
@@ -55,7 +68,12 @@ def _case(draw):
         "falsy": draw(st.sampled_from([False, False, False, True])),
         # the k-th invocation of one dependent method raises (the operation that caused it fails; what follows must still hold)
         "raise_on_call": draw(st.one_of(st.none(), st.none(), st.tuples(st.integers(0, nm - 1), st.integers(1, 3)).map(list))),
-        "ops": draw(st.lists(_ops, min_size=1, max_size=12)),
+        "ops": prefix + draw(st.lists(_ops, min_size=1, max_size=12)),
+        # the parents: one Top; or two Tops sharing the pool of sub-objects; or a Top and an instance of a subclass that
+        # adds one more dependent method (possibly through a root the parent's methods do not use)
+        "parents": parents,
+        "sub_method": sub_method,
+        "init_a1": draw(st.sampled_from([-1, 0, 1, 2])), "init_c1": draw(st.sampled_from([-1, 0, 1, 2, 3])),
     }
 
 
@@ -77,36 +95,48 @@ def execute(case):
     roc = case.get("raise_on_call")
     ncalls = {}
     ns = {"a": param.ClassSelector(class_=Mid, default=None), "c": param.ClassSelector(class_=Leaf, default=None)}
-    calls = []
+    calls = []          # (parent index, method index)
+
+    def mk(i):
+        def m(self):
+            calls.append((self._pidx, i))
+            ncalls[i] = ncalls.get(i, 0) + 1
+            if roc and roc[0] == i and ncalls[i] == roc[1] and armed[0]:
+                raise _Boom(f"m{i} call {ncalls[i]}")
+        m.__name__ = f"m{i}"
+        return m
     for i, deps in enumerate(case["methods"]):
-        def mk(i):
-            def m(self):
-                calls.append(i)
-                ncalls[i] = ncalls.get(i, 0) + 1
-                if roc and roc[0] == i and ncalls[i] == roc[1] and armed[0]:
-                    raise _Boom(f"m{i} call {ncalls[i]}")
-            m.__name__ = f"m{i}"
-            return m
         ns[f"m{i}"] = param.depends(*deps, watch=True)(mk(i))
     Top = type("Top", (param.Parameterized,), ns)
+    nbase = len(case["methods"])
+    sub_deps = case.get("sub_method") or ["c.y"]
+    Sub = type("Sub", (Top,), {f"m{nbase}": param.depends(*sub_deps, watch=True)(mk(nbase))})
     leaves = [Leaf(x=x, y=y) for x, y in case["leaf_vals"]]
     mids = []
     for j, z in enumerate(case["mid_vals"]):
         lk = case["mid_leaf"][j]
         mids.append(Mid(z=z, b=leaves[lk] if lk >= 0 else None))
-    kw = {}
-    if case["init_a"] >= 0:
-        kw["a"] = mids[case["init_a"]]
-    if case["init_c"] >= 0:
-        kw["c"] = leaves[case["init_c"]]
     armed = [False]
-    top = Top(**kw)
+    tops, tmethods = [], []
+    for pi, kind_ in enumerate(case.get("parents") or ["Top"]):
+        kw = {}
+        ia, ic = (case["init_a"], case["init_c"]) if pi == 0 else (case.get("init_a1", -1), case.get("init_c1", -1))
+        if ia >= 0:
+            kw["a"] = mids[ia]
+        if ic >= 0:
+            kw["c"] = leaves[ic]
+        t_ = (Sub if kind_ == "Sub" else Top)(**kw)
+        t_._pidx = pi
+        tops.append(t_)
+        tmethods.append(list(enumerate(case["methods"])) + ([(nbase, sub_deps)] if kind_ == "Sub" else []))
+    if len(tops) > 1:
+        res.label("parents:" + "+".join(case["parents"]))
     del calls[:]
     ncalls.clear()
     armed[0] = True
 
-    def reach(spec):
-        """list of (component key, value) reached through the current path"""
+    def reach(top, spec):
+        """list of (component key, value) reached from `top` through the current path"""
         parts = spec.split(".")
         obj = top
         for p in parts[:-1]:
@@ -118,13 +148,13 @@ def execute(case):
             return [(f"{spec}:{n}", getattr(obj, n)) for n in obj.param]
         return [(spec, getattr(obj, last))]
 
-    def vector(deps):
+    def vector(top, deps):
         out = {}
         for d in deps:
-            out.update(dict(reach(d)))
+            out.update(dict(reach(top, d)))
         return out
 
-    def reachable():
+    def reachable(top):
         objs = set()
         if top.a is not None:
             objs.add(id(top.a))
@@ -141,7 +171,15 @@ def execute(case):
             return True
         return a != b
 
-    ever_attached = set()
+    def assign(obj, name, value, route):
+        if route == "update":
+            obj.param.update(**{name: value})
+        elif route == "batch":
+            with batch_call_watchers(obj):
+                setattr(obj, name, value)
+        else:
+            setattr(obj, name, value)
+
     hist = {"replaced": set(), "assigned_after_replace": set(), "same_sub": False}
     for deps in case["methods"]:
         roots = [d.rsplit(".", 1)[0] for d in deps]
@@ -155,13 +193,13 @@ def execute(case):
         tag = f"op{step}:{op!r}"
         k = op[0]
         res.label("op:" + k)
-        before = [vector(d) for d in case["methods"]]
-        reach_before = reachable()
-        ever_attached |= reach_before
+        before = [[vector(t_, d) for _i, d in tmethods[pi]] for pi, t_ in enumerate(tops)]
+        reach_before = [reachable(t_) for t_ in tops]
         del calls[:]
-        detached_target = False
         same_object = False
         boomed = []
+        acted_on = None       # the parent an attach operation was made on (others are unaffected unless they share the object)
+        target_id = None      # the pool object a leaf / mid assignment was made on
 
         def do(fn):
             try:
@@ -170,76 +208,83 @@ def execute(case):
                 boomed.append(True)
                 res.label("dependent_method_raised")
 
-        if k == "attach_mid":
-            old = top.a
-            same_object = old is not None and op[1] >= 0 and mids[op[1]] is old
-            do(lambda: setattr(top, "a", mids[op[1]] if op[1] >= 0 else None))
-            if old is not None and top.a is not old:
+        if k in ("attach_mid", "attach_c"):
+            pi = (op[2] if len(op) > 2 else 0) % len(tops)
+            top = tops[pi]
+            acted_on = pi
+            attr = "a" if k == "attach_mid" else "c"
+            pool = mids if k == "attach_mid" else leaves
+            old = getattr(top, attr)
+            same_object = old is not None and op[1] >= 0 and pool[op[1]] is old
+            do(lambda: setattr(top, attr, pool[op[1]] if op[1] >= 0 else None))
+            new = getattr(top, attr)
+            if old is not None and new is not old:
                 hist["replaced"].add(id(old))
-                if top.a is not None:
-                    hist["replaced"].add(id(top.a))
+                if new is not None:
+                    hist["replaced"].add(id(new))
         elif k == "attach_leaf":
             mid = mids[op[1]]
             old = mid.b
-            detached_target = id(mid) not in reach_before
+            target_id = id(mid)
             same_object = old is not None and op[2] >= 0 and leaves[op[2]] is old
             do(lambda: setattr(mid, "b", leaves[op[2]] if op[2] >= 0 else None))
-            if old is not None and mid.b is not old and not detached_target:
+            if old is not None and mid.b is not old and any(id(mid) in r for r in reach_before):
                 hist["replaced"].add(id(old))
                 if mid.b is not None:
                     hist["replaced"].add(id(mid.b))
-        elif k == "attach_c":
-            old = top.c
-            same_object = old is not None and op[1] >= 0 and leaves[op[1]] is old
-            do(lambda: setattr(top, "c", leaves[op[1]] if op[1] >= 0 else None))
-            if old is not None and top.c is not old:
-                hist["replaced"].add(id(old))
-                if top.c is not None:
-                    hist["replaced"].add(id(top.c))
         elif k == "set_leaf":
             leaf = leaves[op[1]]
-            detached_target = id(leaf) not in reach_before
-            do(lambda: setattr(leaf, op[2], op[3]))
+            target_id = id(leaf)
+            route = op[4] if len(op) > 4 else "attr"
+            do(lambda: assign(leaf, op[2], op[3], route))
+            if route != "attr":
+                res.label("leaf_assignment_via_" + route)
             if id(leaf) in hist["replaced"]:
                 hist["assigned_after_replace"].add(id(leaf))
         elif k == "set_mid":
             mid = mids[op[1]]
-            detached_target = id(mid) not in reach_before
-            do(lambda: setattr(mid, "z", op[2]))
+            target_id = id(mid)
+            route = op[3] if len(op) > 3 else "attr"
+            do(lambda: assign(mid, "z", op[2], route))
             if id(mid) in hist["replaced"]:
                 hist["assigned_after_replace"].add(id(mid))
-        after = [vector(d) for d in case["methods"]]
-        ever_attached |= reachable()
-        for i, deps in enumerate(case["methods"]):
+        if boomed:
+            res.dontcare += 1       # a method raised: which other methods of the aborted dispatch still ran is not claimed
+            if len(tops) > 1:
+                break               # ... nor whether the other parent's share of the aborted dispatch was done: the history ends
+        for pi, top in enumerate(tops):
             if boomed:
-                res.dontcare += 1       # a method raised: which other methods of the aborted dispatch still ran is not claimed
                 break
-            n = calls.count(i)
-            b, a = before[i], after[i]
-            keys = set(b) | set(a)
-            changed = [key for key in keys if differs(b.get(key, UNRES), a.get(key, UNRES))]
-            flips = [key for key in changed if b.get(key, UNRES) is UNRES or a.get(key, UNRES) is UNRES or key not in b or key not in a]
-            if detached_target:
-                if n:
-                    res.fail("C07.fired_by_detached_object", f"{tag}: m{i}{deps} was called {n}x by an assignment on an object "
-                                                             f"that is not attached")
-                continue
-            unresolved = [key for key in keys if b.get(key, UNRES) is UNRES or a.get(key, UNRES) is UNRES]
-            if flips or (unresolved and k.startswith("attach")):
-                res.dontcare += 1       # the statement conditions on the path resolving both before and after
-                continue
-            if same_object and not changed:
-                res.dontcare += 1       # the identical (non-comparable) object assigned again: a changes-only watcher may fire
-                continue
-            if changed and n != 1:
-                res.fail("C07.missed_or_duplicate_call" if n == 0 else "C07.duplicate_call",
-                         f"{tag}: m{i}{deps}: the values reached through the current path changed "
-                         f"({[(key, b[key], a[key]) for key in sorted(changed)][:4]!r}) but the method was called {n}x")
-            elif not changed and n != 0:
-                res.fail("C07.spurious_call", f"{tag}: m{i}{deps}: nothing reached through the current path changed, yet the "
-                                              f"method was called {n}x")
-        # detached objects keep no watcher on the parent's behalf
-        now = reachable()
+            who = f"parent{pi}:{case.get('parents', ['Top'])[pi]} " if len(tops) > 1 else ""
+            detached_target = target_id is not None and target_id not in reach_before[pi]
+            untouched_parent = acted_on is not None and acted_on != pi
+            for slot, (i, deps) in enumerate(tmethods[pi]):
+                n = calls.count((pi, i))
+                b, a = before[pi][slot], vector(top, deps)
+                keys = set(b) | set(a)
+                changed = [key for key in keys if differs(b.get(key, UNRES), a.get(key, UNRES))]
+                flips = [key for key in changed if b.get(key, UNRES) is UNRES or a.get(key, UNRES) is UNRES or key not in b or key not in a]
+                if detached_target or untouched_parent:
+                    if n:
+                        res.fail("C07.fired_by_detached_object", f"{tag}: {who}m{i}{deps} was called {n}x by an operation on an object "
+                                                                 f"that is not attached to this parent")
+                    continue
+                unresolved = [key for key in keys if b.get(key, UNRES) is UNRES or a.get(key, UNRES) is UNRES]
+                if flips or (unresolved and k.startswith("attach")):
+                    res.dontcare += 1       # the statement conditions on the path resolving both before and after
+                    continue
+                if same_object and not changed:
+                    res.dontcare += 1       # the identical (non-comparable) object assigned again: a changes-only watcher may fire
+                    continue
+                if changed and n != 1:
+                    res.fail("C07.missed_or_duplicate_call" if n == 0 else "C07.duplicate_call",
+                             f"{tag}: {who}m{i}{deps}: the values reached through the current path changed "
+                             f"({[(key, b[key], a[key]) for key in sorted(changed)][:4]!r}) but the method was called {n}x")
+                elif not changed and n != 0:
+                    res.fail("C07.spurious_call", f"{tag}: {who}m{i}{deps}: nothing reached through the current path changed, yet the "
+                                                  f"method was called {n}x")
+        # objects attached to no parent keep no watcher on a parent's behalf
+        now = set().union(*[reachable(t_) for t_ in tops])
         for name, pool in (("mid", mids), ("leaf", leaves)):
             for j, o in enumerate(pool):
                 if id(o) in now:
